@@ -204,6 +204,86 @@ func Run(c *engine.Ctx) {
 	}
 
 	attrCube(c)
+	nearVersions(c)
+}
+
+// nearVersions: the two operands hold versions of the shared node that are one single-field deviation
+// apart - reorderings of set-valued lists and sub-second date changes (which the library's own
+// equality cannot see) included. The precedence rule is judged field by field on exact snapshots.
+func nearVersions(c *engine.Ctx) {
+	c.Group("attr-near-versions")
+	fds := gen.FieldsExcept(&sbom.Node{}, "id", "type")
+	base := func() *sbom.Node {
+		n := &sbom.Node{}
+		gen.Full(n, "S", 3)
+		n.Id = "shared"
+		return n
+	}
+	devs := gen.Deviations(base(), 2)
+	c.Bound("attr-near-versions", fmt.Sprintf("shared node with every field set (3-element lists); %d single-field deviations (nested to depth 2; content changes, reorderings, sub-second) applied to the first or to the second operand's version", len(devs)))
+	for di := range devs {
+		for side := 0; side < 2; side++ {
+			di, side := di, side
+			c.Case(func() any { return map[string]any{"deviation": devs[di].Label, "kind": devs[di].Kind, "deviated-operand": []string{"first", "second"}[side]} }, func(t *engine.T) *engine.Violation {
+				mk := func() (*sbom.NodeList, *sbom.NodeList) {
+					na, nb := base(), base()
+					if side == 0 {
+						devs[di].Mutate(na.ProtoReflect())
+					} else {
+						devs[di].Mutate(nb.ProtoReflect())
+					}
+					na.Id, nb.Id = "shared", "shared"
+					return &sbom.NodeList{Nodes: []*sbom.Node{{Id: "other-a"}, na}, RootElements: []string{"shared"}}, &sbom.NodeList{Nodes: []*sbom.Node{nb, {Id: "other-b"}}}
+				}
+				A, B := mk()
+				na, nb := A.Nodes[1], B.Nodes[0]
+				if na.Id != "shared" || nb.Id != "shared" {
+					t.Outcome("near:key-deviation-skipped")
+					return nil
+				}
+				pick := func(first, second string) string {
+					if second != "" {
+						return second
+					}
+					return first
+				}
+				wantU, wantA := map[string]string{}, map[string]string{}
+				for _, fd := range fds {
+					av, bv := gen.FieldSnap(na, fd), gen.FieldSnap(nb, fd)
+					wantU[string(fd.Name())] = pick(av, bv)
+					wantA[string(fd.Name())] = pick(bv, av)
+				}
+				u := A.Union(B)
+				t.Transitions(1)
+				t.Validated(1)
+				un := u.GetNodeByID("shared")
+				if un == nil {
+					return engine.Violate("union-precedence", "", "shared node missing from union")
+				}
+				for _, fd := range fds {
+					if got := gen.FieldSnap(un, fd); got != wantU[string(fd.Name())] {
+						return engine.Violate("union-precedence", string(fd.Name()), "field %s: union has %q, want %q (second operand wins when non-empty)", fd.Name(), got, wantU[string(fd.Name())])
+					}
+				}
+				A2, B2 := mk()
+				A2.Add(B2)
+				t.Transitions(1)
+				t.Validated(1)
+				an := A2.GetNodeByID("shared")
+				if an == nil {
+					return engine.Violate("add-precedence", "", "shared node missing after Add")
+				}
+				for _, fd := range fds {
+					if got := gen.FieldSnap(an, fd); got != wantA[string(fd.Name())] {
+						return engine.Violate("add-precedence", "", "field %s: receiver has %q after Add, want %q (receiver keeps non-empty, fills empty from argument)", fd.Name(), got, wantA[string(fd.Name())])
+					}
+				}
+				t.State(fmt.Sprintf("near:%s:%d", devs[di].Label, side))
+				t.Outcome("near:" + devs[di].Kind)
+				return nil
+			})
+		}
+	}
 }
 
 func pairCase(t *engine.T, A, B, empty gen.ListSpec) *engine.Violation {
